@@ -15,6 +15,8 @@ import (
 // 256 = b on the client, the candidates for a on the server.
 type RecRand struct {
 	R     *hx.Rand
+	Steer map[[2]int][]byte // (size, occurrence) -> bytes returned instead of the stream's
+	seen  map[int]int
 	mu    sync.Mutex
 	reads [][]byte
 }
@@ -23,8 +25,27 @@ func (r *RecRand) Read(p []byte) (int, error) {
 	r.mu.Lock()
 	defer r.mu.Unlock()
 	n, _ := r.R.Read(p)
+	if r.Steer != nil {
+		r.seen[len(p)]++
+		if v, ok := r.Steer[[2]int{len(p), r.seen[len(p)]}]; ok && len(v) == len(p) {
+			copy(p, v) // the underlying stream advances all the same
+		}
+	}
 	r.reads = append(r.reads, append([]byte(nil), p[:n]...))
 	return n, nil
+}
+
+// SteerRead makes the k-th (1-based) Read of exactly size bytes return v. This is how a harness
+// forces a rare random value (an exponent that yields a key with leading zero bytes, an RSA_PAD
+// temp_key that yields a plaintext with a leading zero byte, ...) into the real code.
+func (r *RecRand) SteerRead(size, k int, v []byte) {
+	r.mu.Lock()
+	defer r.mu.Unlock()
+	if r.Steer == nil {
+		r.Steer = map[[2]int][]byte{}
+		r.seen = map[int]int{}
+	}
+	r.Steer[[2]int{size, k}] = append([]byte(nil), v...)
 }
 
 // OfSize returns all recorded reads of exactly n bytes, in order.
@@ -82,6 +103,15 @@ func BigBytes(b *big.Int) string {
 		return hx.Z(b.Int64())
 	}
 	return "(be " + hx.Bytes(b.Bytes()) + ")"
+}
+
+// LeadingZeros counts the leading zero bytes of b.
+func LeadingZeros(b []byte) int {
+	n := 0
+	for n < len(b) && b[n] == 0 {
+		n++
+	}
+	return n
 }
 
 // KeyID computes the auth key id independently of gotd: SHA1(key)[12:20].
